@@ -4,7 +4,7 @@
 From Coq Require Import Permutation Sorting.Sorted Qround PrimFloat.
 From PV Require Import Lib.Common Model.C17_Sampling Proofs.C17_Sampling Model.C07_Config
   Proofs.C07_LocalOpt Proofs.C07_Tail Proofs.C07_Xmap Proofs.C07_Sort Proofs.C07_Tiled Proofs.C07_RealMateMo Proofs.C07_Integer Proofs.C07_MateExt
-  Gen.C07_Kernel Model.C07_KernelProg Proofs.C07_Kernel Proofs.C07_Space.
+  Gen.C07_Kernel Model.C07_KernelProg Proofs.C07_Kernel Proofs.C07_Space Proofs.C07_MoWeight.
 
 (** * the tail of every individual-based configuration: outcross descent, then a shuffle within every cross.
     For every table, every oracle of exchange orders and every within-cross permutation: the entries are permuted, the number of
@@ -314,6 +314,55 @@ Theorem C07_kernel_mo_choice_is_first_argmax : forall D C wt trans front (decns 
   (kselect_mo (@k_sel_rmate_pick _) k_sel_rmate_score k_sel_rmate_mo_row wt trans front decns cfg = Some (d, c) -> mo_choice_post wt trans front decns cfg d c).
 Proof. exact kselect_mo_spec. Qed.
 Print Assumptions C07_kernel_mo_choice_is_first_argmax.
+
+(** the place of ndset_wt: it multiplies the OUTPUT of the transformation of the front, so in the programs assembled from the
+    kernel expressions of all eight select() methods the chosen decision (and the configuration) depends on the weight through
+    its sign only - any two weights of one sign choose the same point, whatever the transformation *)
+Theorem C07_mo_choice_weight_sign_only : forall D C (wt wt' : Q) trans front (decns : list D) (cfg : D -> option C),
+  (0 < wt * wt')%Q ->
+  kselect_mo (@k_sel_subset_pick _) k_sel_subset_score k_sel_subset_mo_row wt trans front decns cfg
+    = kselect_mo (@k_sel_subset_pick _) k_sel_subset_score k_sel_subset_mo_row wt' trans front decns cfg /\
+  kselect_mo (@k_sel_real_pick _) k_sel_real_score k_sel_real_mo_row wt trans front decns cfg
+    = kselect_mo (@k_sel_real_pick _) k_sel_real_score k_sel_real_mo_row wt' trans front decns cfg /\
+  kselect_mo (@k_sel_integer_pick _) k_sel_integer_score k_sel_integer_mo_row wt trans front decns cfg
+    = kselect_mo (@k_sel_integer_pick _) k_sel_integer_score k_sel_integer_mo_row wt' trans front decns cfg /\
+  kselect_mo (@k_sel_binary_pick _) k_sel_binary_score k_sel_binary_mo_row wt trans front decns cfg
+    = kselect_mo (@k_sel_binary_pick _) k_sel_binary_score k_sel_binary_mo_row wt' trans front decns cfg /\
+  kselect_mo (@k_sel_mate_pick _) k_sel_mate_score k_sel_mate_mo_row wt trans front decns cfg
+    = kselect_mo (@k_sel_mate_pick _) k_sel_mate_score k_sel_mate_mo_row wt' trans front decns cfg /\
+  kselect_mo (@k_sel_imate_pick _) k_sel_imate_score k_sel_imate_mo_row wt trans front decns cfg
+    = kselect_mo (@k_sel_imate_pick _) k_sel_imate_score k_sel_imate_mo_row wt' trans front decns cfg /\
+  kselect_mo (@k_sel_bmate_pick _) k_sel_bmate_score k_sel_bmate_mo_row wt trans front decns cfg
+    = kselect_mo (@k_sel_bmate_pick _) k_sel_bmate_score k_sel_bmate_mo_row wt' trans front decns cfg /\
+  kselect_mo (@k_sel_rmate_pick _) k_sel_rmate_score k_sel_rmate_mo_row wt trans front decns cfg
+    = kselect_mo (@k_sel_rmate_pick _) k_sel_rmate_score k_sel_rmate_mo_row wt' trans front decns cfg.
+Proof. exact kselect_mo_weight_sign_only. Qed.
+Print Assumptions C07_mo_choice_weight_sign_only.
+
+(** ... and a weight applied to the INPUT of the transformation is another protocol: with the squared distance to a reference
+    point (not positively homogeneous) the two placements choose different points of a two-point front, for a negative weight and
+    for a positive weight other than 1 *)
+Theorem C07_mo_weight_inside_transformation_differs : exists (wt : Q) trans front (decns : list Z),
+  mo_choice wt trans front decns = Some 10%Z /\ mo_choice 1 (weight_inside wt trans) front decns = Some 11%Z.
+Proof. exact mo_weight_inside_differs. Qed.
+Print Assumptions C07_mo_weight_inside_transformation_differs.
+
+Theorem C07_mo_positive_weight_inside_transformation_differs : exists (wt : Q) trans front (decns : list Z),
+  (0 < wt)%Q /\ mo_choice wt trans front decns = Some 11%Z /\ mo_choice 1 (weight_inside wt trans) front decns = Some 10%Z.
+Proof. exact mo_weight_inside_differs_pos. Qed.
+Print Assumptions C07_mo_positive_weight_inside_transformation_differs.
+
+(** the hypothesis of C07_mo_choice_weight_sign_only is met by the weights -5/2 and -1, which choose the third point of a
+    three-point front (the first minimiser of the transformation), while the weight 1 chooses the second *)
+Example C07_mo_weight_hyps_satisfiable :
+  (0 < (-5 # 2) * (-1 # 1))%Q /\
+  kselect_mo (@k_sel_binary_pick _) k_sel_binary_score k_sel_binary_mo_row (-5 # 2)%Q (map (fun r => nth 0 r 0%Q)) [[3#1];[7#1];[1#1]]%Q [[1;0];[0;1];[1;1]]%Z (fun d => Some (length d))
+    = Some ([1;1]%Z, 2%nat) /\
+  kselect_mo (@k_sel_binary_pick _) k_sel_binary_score k_sel_binary_mo_row (-1 # 1)%Q (map (fun r => nth 0 r 0%Q)) [[3#1];[7#1];[1#1]]%Q [[1;0];[0;1];[1;1]]%Z (fun d => Some (length d))
+    = Some ([1;1]%Z, 2%nat) /\
+  kselect_mo (@k_sel_binary_pick _) k_sel_binary_score k_sel_binary_mo_row (1 # 1)%Q (map (fun r => nth 0 r 0%Q)) [[3#1];[7#1];[1#1]]%Q [[1;0];[0;1];[1;1]]%Z (fun d => Some (length d))
+    = Some ([0;1]%Z, 2%nat).
+Proof. split; [reflexivity|]. repeat split; vm_compute; reflexivity. Qed.
 
 (** one objective: the first row of the solution; the dispatch on the number of objectives; the cross-design attributes are
     handed to the configuration in their own places (ncross, nparent, nmating, nprogeny), in both branches of all six bases *)
